@@ -278,6 +278,9 @@ func (g *gen) doUnOp(x *ssa.UnOp) {
 		if lv.Sort == sPtr {
 			g.assume(and(sx("<=", "0", lv.S), sx("<", lv.S, g.nalloc())))
 		}
+		if lv.Sort == sSlice {
+			g.assume(g.wfSlice(lv.S)) // every slice value in memory is well formed
+		}
 	case token.NOT:
 		g.setVal(x, not(g.operand(x.X).S))
 	case token.SUB:
@@ -554,7 +557,11 @@ func (g *gen) convert(v T, s string, sg bool) (string, bool) {
 			return sx(fmt.Sprintf("(_ zero_extend %d)", tw-fw), v.S), true
 		}
 	case isBV(v.Sort) && s == sInt:
-		return g.toIdx(v), true
+		w := bvWidth(v.Sort)
+		if v.Signed {
+			return sx("ite", sx("bvslt", v.S, bvLit(0, w)), sx("-", sx("bv2nat", v.S), new(bigPow).pow2(w)), sx("bv2nat", v.S)), true
+		}
+		return sx("bv2nat", v.S), true
 	case v.Sort == sInt && isBV(s):
 		return sx(fmt.Sprintf("(_ int2bv %d)", bvWidth(s)), v.S), true
 	case isBV(v.Sort) && isFP(s):
@@ -1165,6 +1172,9 @@ func (g *gen) anchoredAsserts(full, short string, ord int, after bool, res []T, 
 		for k, v := range g.params {
 			e.vars[k] = v
 		}
+		for n, t := range g.loopVars(g.curBlock, nil) {
+			e.vars[n] = t
+		}
 		for _, blk := range append(g.domChain(g.curBlock), g.curBlock) {
 			for n, t := range g.debugVars[blk] {
 				e.vars[n] = t
@@ -1385,13 +1395,20 @@ func qualShort(full string) string {
 		return ""
 	}
 	recv := strings.TrimPrefix(full[1:j], "*")
+	targ := ""
 	if k := strings.Index(recv, "["); k > 0 {
+		// keep the last segment of the type argument: Option[Identity]
+		targ = strings.TrimSuffix(recv[k+1:], "]")
+		if d := strings.LastIndex(targ, "."); d >= 0 {
+			targ = targ[d+1:]
+		}
+		targ = "[" + strings.TrimPrefix(targ, "*") + "]"
 		recv = recv[:k]
 	}
 	if k := strings.LastIndex(recv, "."); k >= 0 {
 		recv = recv[k+1:]
 	}
-	return recv + "." + full[j+2:]
+	return recv + targ + "." + full[j+2:]
 }
 
 // lookupCall: exact key, else the unique recorded key "name[…]#ord" (instances of generic functions)
